@@ -65,6 +65,12 @@ func (p *vfC13Peer) expect(pc *vfPeerConn, local string) (vfElem, error) {
 	}
 }
 
+func (p *vfC13Peer) nconns() int {
+	p.mu.Lock()
+	defer p.mu.Unlock()
+	return len(p.conns)
+}
+
 func (p *vfC13Peer) next() string {
 	p.mu.Lock()
 	defer p.mu.Unlock()
@@ -427,7 +433,7 @@ func vfC13Run(run *vfkit.Run, cs *vfC13Case) {
 			return false
 		}) {
 			k := "C13/not-receiving-on-new-session:" + tag
-			run.Violation(k, fmt.Sprintf("session %d (%s) was established at the peer but a stanza sent on it was never routed (receive loop alive for this client: %v)", s.n, s.kind, vfClientHasRecv(c)), cs)
+			run.Violation(k, fmt.Sprintf("session %d (%s) was established at the peer but a stanza sent on it was never routed (receive loop alive for this client: %v; connections seen by the peer: %d; Disconnected events so far: %d; error callbacks: %v)", s.n, s.kind, vfClientHasRecv(c), vp.nconns(), obs.CountState(StateDisconnected), obs.Errors())+vp.diag(c, sm), cs)
 			return false
 		}
 		out := fmt.Sprintf("pong-%d-%d", cs.Seed, s.n)
